@@ -369,8 +369,9 @@ func wakeAll(ts *[]*simrt.Task) {
 	}
 }
 
-// ioSync mirrors internal/poll's global ioSync: under -race every successful
-// socket write release-merges into it and every read acquires it.
+// ioSync mirrors package syscall's global ioSync: under -race syscall.Write
+// release-merges into it and a successful syscall.Read acquires it. Only the
+// stream path (Read/Write) carries the edge; recvfrom/sendto (UDP) do not.
 var ioSync byte
 
 func raceWrite() { simrt.RaceReleaseMerge(unsafe.Pointer(&ioSync)) }
